@@ -523,6 +523,14 @@ class DiffXReader(object):
                             newline=newline,
                             keep_ends=True)
 
+        # The content as stored in the file must end in a newline. This has
+        # to be checked before any indentation is stripped, or a final line
+        # consisting of nothing but indentation would go unnoticed.
+        if not content.endswith(newline):
+            raise DiffXParseError(
+                'Expected a newline after content',
+                linenum=self._linenum)
+
         if indent:
             # It's important that we don't assume each line is actually
             # indented correctly. There could be nothing but a newline,
